@@ -9,7 +9,7 @@ MNext == \/ \E c \in {"activate", "ndef", "changed"} : Begin(c)
                                 \/ (\E o \in 0..3 : ReadAt(o, ok, Budget))
          \/ Sense
          \/ Finish(NoneRes, Lo, Hi)
-         \/ \E o \in 0..(Hi + 1), n \in 0..3, c \in 0..3 : Finish([none |-> FALSE, off |-> o, len |-> n, cap |-> c], Lo, Hi)
+         \/ \E o \in 0..(Hi + 1), n \in 0..3, c \in 0..3 : Finish([none |-> FALSE, off |-> o, len |-> n, cap |-> c, tlv |-> -1], Lo, Hi)
 MSpec == MInit /\ [][MNext]_mvars
 
 Bounded  == ncmd <= Budget /\ nretry <= Budget
